@@ -54,7 +54,7 @@ def _leaf(k, rng):
     if k == 'pattern':
         return Ty('pattern', of=rng.choice((None, 'str', 'str', 'bytes')))
     if k == 'sub':
-        return Ty('sub', base=rng.choice(('int', 'float', 'str', 'str')), picky=rng.random() < 0.35)
+        return Ty('sub', base=rng.choice(('int', 'float', 'str', 'str', 'bytes')), picky=rng.random() < 0.35)
     if k == 'lit':
         pool = rng.choice(LIT_POOLS)
         n = rng.randint(1, len(pool))
